@@ -230,8 +230,33 @@ theorem createUpload_no_object (cfg : Cfg) (s : State) (w : Who) (now : Int) (b 
   cases hchk : verifyAccess cfg bk w .write actPutObject k with
   | some e => simp only [hchk] at hok; exact absurd hok (errR_code_ne _)
   | none =>
-    simp only [hchk]
-    exact ⟨_, find_set s _ b hname, rfl⟩
+    simp only [hchk] at hok ⊢
+    split at hok
+    · exact absurd hok (errR_code_ne _)
+    · rename_i hl
+      simp only [hl]
+      exact ⟨_, find_set s _ b hname, rfl⟩
+
+/-- a refused CreateMultipartUpload changes nothing: in particular the other uploads in progress for the
+same key, their parts and metadata stay exactly as they were -/
+theorem createUpload_refused_no_effect (cfg : Cfg) (s : State) (w : Who) (now : Int) (b k : Bytes) (p : PutSpec) (nid : Bytes)
+    (hrf : (handle cfg s w now (.createUpload b k p nid)).2.code ≠ "") :
+    (handle cfg s w now (.createUpload b k p nid)).1 = s := by
+  simp only [handle, withBucket] at hrf ⊢
+  split
+  · rfl
+  · rename_i bk hb
+    simp only [hb] at hrf
+    unfold guarded at hrf ⊢
+    split
+    · rfl
+    · rename_i hchk
+      simp only [hchk] at hrf
+      split
+      · rfl
+      · rename_i hl
+        simp only [hl] at hrf
+        exact absurd rfl hrf
 
 /-- after an abort the upload id is gone -/
 theorem abort_removes (cfg : Cfg) (s : State) (w : Who) (now : Int) (b k id : Bytes)
